@@ -41,7 +41,7 @@ CLAIMS = {
   note='Thin claim: detects only changes that drop or stop emitting a spelling attribute.', ref='2/C09'),
  'C10': dict(
   technique='def-use and affine-length analysis of the wrap budget; stated-belief (sentinel) rule',
-  text='Decides the arithmetic clauses of reflow: blocks that must not be re-broken never pass the limit on; each container gives its children limit minus the length of the prefix it prepends (for both prefixes); a line is extended only under a length test against the limit; a budget encoded as None-for-absent is never tested by truthiness. Meaning preservation and idempotence are not decided.',
+  text='Decides the arithmetic clauses of reflow: blocks that must not be re-broken never pass the limit on; each container gives its children limit minus the length of the prefix it prepends (for both prefixes); a line is extended only under a length test against the limit; a budget encoded as None-for-absent is never tested by truthiness; and (interpreting make_words + fragments_to_lines over an abstract word sequence with an unknown limit) a hard line break always separates the words around it and no word is dropped. Meaning preservation and idempotence are not decided.',
   note='Trusted: len() algebra of string concatenation and repetition.', ref='2/C10'),
  'C11': dict(
   technique='effect inventory of all call-time writes to process-global state + typestate disciplines (restore on all paths incl. exceptional edges, rewrite at entry, def-before-use, reset-before-fill, who-may-write/call) + abstract interpretation of Renderer();__exit__',
@@ -57,7 +57,7 @@ CLAIMS = {
   note='Trusted: FileWrapper.line_number = start_line + _index (checked).', ref='2/C13'),
  'C14': dict(
   technique='regex literal -> NFA -> product-automaton language inclusion against transcribed CommonMark block-start languages (shortest witness), plus path enumeration of start()',
-  text='Decides the over-acceptance clause for prose: for every regex-based block start the prefix-match language over all well-formed lines is included in the CommonMark 0.30 language (Heading, ThematicBreak, CodeFence incl. its backtick filter, list markers, setext underline); starts use anchored .match and return truthy only when the pattern matched; flanking rows for intraword/isolated delimiters; gap text reaches the fallback token through html.unescape only. Inertness of inline punctuation in general is not decided.',
+  text='Decides the over-acceptance clause for prose: for every regex-based block start the prefix-match language over all well-formed lines is included in the CommonMark 0.30 language (Heading, ThematicBreak, CodeFence incl. its backtick filter, list markers, setext underline); starts use anchored .match and return truthy only when the pattern matched; the hand-written Quote/HtmlBlock starts accept at most three leading spaces; a list marker interrupts a paragraph only as the spec says; flanking rows for intraword/isolated delimiters; gap text reaches the fallback token through html.unescape only. Inertness of inline punctuation in general is not decided.',
   note='Trusted: sa/spec/blockstart.py; alphabet abstraction (printable ASCII, tab, newline, one non-ASCII letter).', ref='2/C14'),
  'C15': dict(
   technique='string-suffix abstract domain + provenance (def-use) from each entry point to the single line normaliser',
